@@ -24,6 +24,7 @@ func init() {
 			"lookup by request id answers only on an exact id match and never for the empty id (C06.reqid-guard)",
 			"latest-N orders by key descending and returns the clamped prefix (C06.newest-first)",
 			"the history line reader has no fixed line-length cap (C06.unbounded-line)",
+			"status lines are appended: existing history files are opened for writing only with O_APPEND and without O_TRUNC (C07.append-only, shared)",
 		},
 		NotDec: []string{
 			"equality with a reference model over operation sequences",
@@ -40,6 +41,7 @@ func runC06(e *Env) {
 	c06ReqID(e)
 	c06NewestFirst(e)
 	c06UnboundedLine(e)
+	c07AppendOnly(e) // an update that does not append leaves queries answering the pre-update record
 }
 
 // globalRegexp returns the constant pattern a package-level regexp variable is compiled from.
